@@ -7,7 +7,7 @@ from gen import SeqGen, canonical_names, basename
 ID = "C20"
 HEAP_SUMMARY = True      # end every program with the reference-level observation (BB.Model.Heap vs id() walk)
 LEAN_MODULE = "BB.Properties.C20"
-QUICK_N = 240
+QUICK_N = 480
 THOROUGH_N = 5000
 RULE = ("pairs (a, b): b = a.copy() of a blueprint / element / sequence (blueprint channels only), then 0-4 public mutations "
         "on either side drawn uniformly from {changeArg, changeDuration, insertSegment, removeSegment, set/removeSegmentMarker, "
